@@ -32,8 +32,9 @@ ASSUMPTIONS = [
     "the handler-variety families (raising handler position / kind, catch-all arrangements, a-b-a duplicates) run on 8 "
     "representative timestamp patterns, the base family on all patterns",
     "the order in which catch-all handlers of one stage start is not part of the statement and is not checked",
-    "events pushed to a derived source by a scheduled JOB (rather than by a handler) are outside the quantifier; the "
-    "scenario exists but is disabled (PENDING_DEFECTS: such an event is handled with the clock of the next event time)",
+    "events pushed to a derived source by a scheduled JOB (stamped now()) are covered for jobs whose time lies strictly "
+    "between two event times (found a genuine defect, repaired by /repo 20c027b); events created during the final drain "
+    "are outside the property",
 ]
 BOUNDS = {"quick": dict(sources=2, events_per_source=2, deviation_bound=1),
           "thorough": dict(sources=3, events_per_source=3, deviation_bound=2, note="deviation bound 1 for patterns with >= 4 events")}
@@ -41,9 +42,9 @@ EXPLANATION = ("implementation-level model checking: every explored trace is an 
                "traces_validated_against_impl counts executions re-run from their recorded choices with identical "
                "observations")
 
-# Scenarios that report a behaviour of the UNCHANGED tree which is (arguably) outside the quantifier; kept disabled until
-# /repo is repaired or the question is settled (see notes/I1.md, notes/I1-defect-1.py).
-PENDING_DEFECTS = {"job-pushes-derived-event"}
+# Scenarios that report a genuine defect of the tree and stay disabled until /repo is repaired. Empty now:
+# "job-pushes-derived-event" (notes/I1.md, notes/I1-defect-1.py) was repaired by /repo 20c027b and is enabled.
+PENDING_DEFECTS = set()
 
 GRID = (1, 1.5, 3)  # two values share a UTC second: sub-second resolution matters
 # representative timestamp patterns for the handler-variety families
@@ -110,10 +111,15 @@ def scenarios(tier, seed):
             for sn in ((0, 0), (1, 1), (2, 2)):
                 for derived in (0, 1):
                     out.append((st, maxc, bool(sn[0]), derived, False, "aba", False, _opts(sn=sn)))
-            # a scheduled job that pushes an event stamped now() to the derived source
+            # a scheduled job that pushes an event stamped now() to the derived source. The job's time lies strictly
+            # between two event times, so that a LATER event exists (what is created during the final drain is outside
+            # the property)
             if "job-pushes-derived-event" not in PENDING_DEFECTS:
-                for sniff in (False, True):
-                    out.append((st, maxc, sniff, 0, False, False, False, _opts(jobpush=2.0)))
+                latest = max(t for times in st for t in times)
+                for jt in (1.2, 2.0):
+                    if jt < latest:
+                        for sniff in (False, True):
+                            out.append((st, maxc, sniff, 0, False, False, False, _opts(jobpush=jt)))
     assert len(set(out)) == len(out) and not (seen & set(out[len(seen):]))
     return out
 
